@@ -263,6 +263,10 @@ def eval3(expr, env):
     key = norm(expr)
     if key in env and isinstance(env[key], bool):
         return env[key]
+    # an assumption stated about `not <expr>` decides <expr> as well (test nodes hold conditions without leading nots)
+    for nk in ("not " + key, f"not ({key})"):
+        if nk in env and isinstance(env[nk], bool):
+            return not env[nk]
     if isinstance(expr, ast.Constant):
         return bool(expr.value)
     if isinstance(expr, ast.UnaryOp) and isinstance(expr.op, ast.Not):
@@ -431,7 +435,11 @@ class Builder:
             ctx.on_continue(n.id)
             return []
         if isinstance(s, ast.If):
-            t = g._new("test", s.test)
+            # a test node holds the condition without leading `not`s; its T / F edges say whether *that* condition is
+            # true or false (so `if not c: A` has A on the F edge of the node for c): rules never have to know which
+            # way round a guard was written
+            cond, tl, fl = _strip_not(s.test)
+            t = g._new("test", cond)
             self._connect(dangling, t.id)
             if ctx.guarded or self.fallible(ast.Expr(value=s.test)):
                 if calls_in(s.test):
@@ -439,15 +447,16 @@ class Builder:
             cv = _const_truth(s.test)
             out = []
             if cv is not False:
-                out += self._block(s.body, [(t.id, "T")], ctx)
+                out += self._block(s.body, [(t.id, tl)], ctx)
             if cv is not True:
                 if s.orelse:
-                    out += self._block(s.orelse, [(t.id, "F")], ctx)
+                    out += self._block(s.orelse, [(t.id, fl)], ctx)
                 else:
-                    out.append((t.id, "F"))
+                    out.append((t.id, fl))
             return out
         if isinstance(s, ast.While):
-            t = g._new("test", s.test)
+            cond, tl, fl = _strip_not(s.test)
+            t = g._new("test", cond)
             self._connect(dangling, t.id)
             if ctx.guarded and calls_in(s.test):
                 ctx.on_exc(t.id)
@@ -455,14 +464,14 @@ class Builder:
             lctx = ctx.replace(on_break=lambda src: after.append((src, "")), on_continue=lambda src: g._edge(src, t.id, ""))
             cv = _const_truth(s.test)
             g._cur_loops = tuple(getattr(g, "_cur_loops", ())) + (t.id,)
-            body_out = self._block(s.body, [(t.id, "T")], lctx) if cv is not False else []
+            body_out = self._block(s.body, [(t.id, tl)], lctx) if cv is not False else []
             g._cur_loops = g._cur_loops[:-1]
             self._connect(body_out, t.id)
             if cv is not True:
                 if s.orelse:
-                    after += self._block(s.orelse, [(t.id, "F")], ctx)
+                    after += self._block(s.orelse, [(t.id, fl)], ctx)
                 else:
-                    after.append((t.id, "F"))
+                    after.append((t.id, fl))
             return after
         if isinstance(s, (ast.For, ast.AsyncFor)):
             h = g._new("for", s)
@@ -596,6 +605,15 @@ class Builder:
                 return results
             return []
         return out
+
+
+def _strip_not(test):
+    """(condition without leading nots, label of the edge taken when the *statement's* test is true, label when false)."""
+    tl, fl = "T", "F"
+    while isinstance(test, ast.UnaryOp) and isinstance(test.op, ast.Not):
+        test = test.operand
+        tl, fl = fl, tl
+    return test, tl, fl
 
 
 def _const_truth(expr):
